@@ -11,6 +11,7 @@ import pathlib
 import sys
 import typing
 
+from pydsdl import read_files as read_dsdl_files
 from pydsdl import read_namespace as read_dsdl_namespace
 
 from nunavut._dependencies import DependencyBuilder
@@ -228,11 +229,25 @@ class ArgparseRunner:
 
     def _dependency_source_files(self) -> typing.List[pathlib.Path]:
         """
-        The DSDL files of the composite types that the generated types use, directly or transitively, and that are
-        not generated themselves (types found through the lookup directories). Their contents influence the output.
+        The DSDL files that are not generated themselves (definitions found through the lookup directories) but whose
+        contents influence the output: the composite types the generated types use, directly or transitively, and every
+        other definition the DSDL front end had to read to build the generated types, e.g. a definition whose constant
+        is used in an array capacity, in the value of a constant or in an ``@assert``/``@extent`` expression.
         """
         generated = [t for t, _ in self._root_namespace.get_all_datatypes()]
-        dependencies = DependencyBuilder(*generated).transitive().composite_types
+        if not generated:
+            return []
+        dependencies = set(DependencyBuilder(*generated).transitive().composite_types)
+        # The parsed types do not record which definitions their expressions referred to; the front end reports every
+        # definition it read beyond the requested ones as the second element of the result of read_files.
+        dependencies.update(
+            read_dsdl_files(
+                [t.source_file_path for t in generated],
+                self._root_namespace.source_file_path,
+                self._extra_includes,
+                allow_unregulated_fixed_port_id=self._args.allow_unregulated_fixed_port_id,
+            )[1]
+        )
         return sorted({t.source_file_path for t in dependencies} - {t.source_file_path for t in generated})
 
     def _list_configuration_only(self) -> None:
